@@ -374,6 +374,8 @@ func regexClass(pat string) string {
 	return "full"
 }
 
+func regexpQuote(s string) string { return regexp.QuoteMeta(s) }
+
 func mustRegexp(pat string) *regexp.Regexp {
 	re, err := regexp.Compile(pat)
 	if err != nil {
